@@ -41,6 +41,10 @@ class UnitLog:
         return self.d
 
 
+MAX_CEX_PER_PROCESS = 3
+_CEX_SEEN = [0]
+
+
 def model_inputs(model, variables):
     """variables: dict name -> z3 const.  Returns dict name -> python float/int/bool."""
     out = {}
@@ -89,6 +93,10 @@ def discharge(log: UnitLog, c: core.Ctx, name, prop, variables, concrete, *, fin
                numbers (no proxies) and evaluates the same property; used to replay counterexamples
     robust     optional stronger negation (z3 Bool) used to look for a witness that survives rounding
     """
+    if _CEX_SEEN[0] >= MAX_CEX_PER_PROCESS:
+        # the verdict of this run is already "violated" (reproduced counterexamples exist): do not spend more solver time
+        log['skipped_after_violation'] = log.d.get('skipped_after_violation', 0) + 1
+        return 'skipped'
     log['obligations'] += 1
     verdict, m, dt = core.prove(c, prop, extra=extra, timeout_ms=timeout_ms)
     log['solver_s'] += dt
@@ -136,6 +144,8 @@ def discharge(log: UnitLog, c: core.Ctx, name, prop, variables, concrete, *, fin
            'attempts': attempts[-2:], 'inputs': (reproduced or attempts[0])['inputs'],
            'detail': (reproduced or attempts[0])['detail'], 'how': (reproduced or attempts[0])['how']}
     log['cex'].append(cex)
+    if cex['reproduced'] and finding is None:
+        _CEX_SEEN[0] += 1
     return 'sat'
 
 
